@@ -498,6 +498,16 @@ fn first_use_world() -> Arc<World> {
     Arc::new(World::build(spec).expect("W-conc-first-use"))
 }
 
+/// a regex provider in its debugging mode with a pattern whose second alternative is not anchored: every analysis
+/// in which that alternative matches behind the start of a window returns an error value - each of them, every time
+fn regex_debug_world() -> Arc<World> {
+    let mut spec = spec_full("W-conc-regex-debug", true);
+    let mut rx = regex_oov("[0-9]+|[a-z]+", 1, 1, 3000, P_NOUN, 16, true);
+    rx["debug"] = json!(true);
+    spec.plugins["oovProviderPlugin"] = json!([rx, mecab_oov(false), simple_oov(5, 5, 3857, P_SYM, false)]);
+    Arc::new(World::build(spec).expect("W-conc-regex-debug"))
+}
+
 /// a dictionary of 1300 words (more than any small table of "recently used" entries holds) and a
 /// text that contains 1200 of them
 fn many_words_world() -> (Arc<World>, String, String) {
@@ -539,6 +549,7 @@ fn drivers_for(tier: Tier, world: &Arc<World>, first: &Arc<World>) -> Vec<(Drive
             (Driver { label: "2 threads, different field requests on user-dictionary words".into(), world: w(), jobs: vec![ts(Mode::C, POS_ONLY, &["東京府すだち"]), t(Mode::A, &["東京府すだち"])] }, vec![0, 1, 2]),
             (Driver { label: "2 threads, field requests that differ in the two highest fields only".into(), world: w(), jobs: vec![ts(Mode::C, ALL_BUT_TWO_HIGHEST, &["東京府京都"]), t(Mode::C, &["東京府京都"])] }, vec![0, 1]),
             (Driver { label: "2 threads, astral and BMP characters with the same low sixteen bits".into(), world: w(), jobs: vec![t(Mode::C, &["\u{20041}\u{20042}x", "\u{1d400}"]), t(Mode::C, &["Aあ", "\u{d400}B"])] }, vec![0, 1]),
+            (Driver { label: "2 threads, analyses that end in an error value (regex provider in debugging mode)".into(), world: regex_debug_world(), jobs: vec![t(Mode::C, &["京都abc", "東京"]), t(Mode::C, &["東xyz", "京都7"])] }, vec![0, 1]),
             {
                 let (mw, one, many) = many_words_world();
                 (Driver { label: "2 threads, a word before and after 1200 other words of a 1300-word dictionary".into(), world: mw, jobs: vec![t(Mode::C, &[&one, &many, &one]), t(Mode::C, &[&one])] }, vec![0])
@@ -555,6 +566,7 @@ fn drivers_for(tier: Tier, world: &Arc<World>, first: &Arc<World>) -> Vec<(Drive
             (Driver { label: "3 threads, different field requests on user-dictionary words".into(), world: w(), jobs: vec![ts(Mode::C, POS_ONLY, &["東京府すだち"]), t(Mode::A, &["東京府すだち"]), ts(Mode::B, 0, &["ぴらる都府"])] }, vec![0, 1, 2]),
             (Driver { label: "3 threads, field requests that differ in the two highest fields only".into(), world: w(), jobs: vec![ts(Mode::C, ALL_BUT_TWO_HIGHEST, &["東京府京都"]), t(Mode::C, &["東京府京都"]), ts(Mode::A, ALL_BUT_TWO_HIGHEST | (1 << 9), &["京都東京府"])] }, vec![0, 1, 2]),
             (Driver { label: "2 threads, astral and BMP characters with the same low sixteen bits".into(), world: w(), jobs: vec![t(Mode::C, &["\u{20041}\u{20042}x", "\u{1d400}"]), t(Mode::C, &["Aあ", "\u{d400}B"])] }, vec![0, 1, 2]),
+            (Driver { label: "3 threads, analyses that end in an error value (regex provider in debugging mode)".into(), world: regex_debug_world(), jobs: vec![t(Mode::C, &["京都abc", "東京"]), t(Mode::C, &["東xyz", "京都7"]), t(Mode::A, &["京7a"])] }, vec![0, 1, 2]),
             {
                 let (mw, one, many) = many_words_world();
                 (Driver { label: "2 threads, a word before and after 1200 other words of a 1300-word dictionary".into(), world: mw, jobs: vec![t(Mode::C, &[&one, &many, &one]), t(Mode::C, &[&one, &one])] }, vec![0, 1])
